@@ -573,7 +573,7 @@ pub fn run(report: &mut Report) {
         crate::engine::runner::Tier::Quick => small_configs(),
         crate::engine::runner::Tier::Thorough => thorough_configs(),
     };
-    let limit = tier.pick_usize(2500, 400_000);
+    let limit = tier.pick_usize(6000, 400_000);
     let mut complete_cases: Vec<Case> = vec![];
     let mut partial_cases: Vec<Case> = vec![];
     if !report.is_replay() {
